@@ -378,8 +378,13 @@ var (
 	reOption   = regexp.MustCompile(`^option name \S+ type (spin default -?\d+ min -?\d+ max -?\d+|check default (true|false))$`)
 	reMockInfo = regexp.MustCompile(`^info string mock (\d+) (\d+)( pv( ` + reMv + `)+)?$`)
 	reMockAck  = regexp.MustCompile(`^info string ponderhit (\d+)$`)
-	reInfo     = regexp.MustCompile(`^info depth \d+ score (cp -?\d+|mate -?\d+|Inv) nodes \d+ time \d+ hashfull \d+ pv( ` + reMv + `)* ?$`)
-	reInfoEnd  = regexp.MustCompile(`^info depth \d+ nodes \d+$`)
+	// an info line of the real search: `info`, then fields `<key> <integer>` (score: cp / mate and an integer) in
+	// any order and number, then optionally `pv` with well-formed moves. The property asks for lines that are
+	// not torn, not for a fixed set of fields: a version that also prints seldepth or nps is still well formed.
+	// A torn line (bytes of another line in the middle) leaves a key without its integer or starts a new
+	// `info` / `readyok` / `bestmove` inside the line, which this shape rejects.
+	reInfo     = regexp.MustCompile(`^info( (depth|nodes|time|hashfull|seldepth|nps|multipv|tbhits|currmovenumber|cpuload) -?\d+| score (cp -?\d+|mate -?\d+|Inv))+ pv( ` + reMv + `)* ?$`)
+	reInfoEnd  = regexp.MustCompile(`^info( (depth|nodes|time|hashfull|seldepth|nps) -?\d+)+$`)
 	reBest     = regexp.MustCompile(`^bestmove (` + reMv + `|0000)( ponder ` + reMv + `)?$`)
 )
 
